@@ -1,6 +1,7 @@
 (* C14  Type-source preference settles only real conflicts; warnings never alter output. *)
 From Coq Require Import List String Ascii ZArith Bool Permutation Sorting.Sorted. Import ListNotations.
 From SV Require Import Lib.Str Model.Types Model.Api Model.FrontSmall Model.View Model.Front Proofs.FrontSmallProofs Proofs.WalkProofs.
+From SV Require Import Model.DocTypes Proofs.DocTypesProofs.
 From SV Require Import Model.Layout Model.Run Proofs.RunProofs.
 
 (* hint under CODE, docstring type under DOCSTRING, the only available one otherwise *)
@@ -46,6 +47,15 @@ Proof. exact front_warn_pure. Qed.
    written into any initial tree are the same with warnings on and off; only the log differs *)
 Theorem C14_run_warn_pure : forall v nc fs0 w1 w2, artefacts (run (with_warn v w1) nc fs0) = artefacts (run (with_warn v w2) nc fs0).
 Proof. exact run_warn_pure. Qed.
+(* THE DOCSTRING TYPE (model of _griffe_annotation_to_api_type, compared with the code on every type expression of generated
+   docstrings): an alternative chain `a | b | c | ...` becomes the union of the types of all its alternatives that have one,
+   rightmost first - none is dropped, however long the chain; the function is total by construction (no loop that can run on) *)
+Theorem C14_doc_type_union_chain : forall numpy l r,
+  doc_type numpy (GBinOp l r) = Some (TUnion (somes (map (doc_type numpy) (chain (GBinOp l r))))).
+Proof. exact binop_chain. Qed.
+Theorem C14_doc_type_unparsable_string : forall numpy s,
+  doc_type numpy (GStr s (GStr s GOther)) = if str_eqb s (K"None") then Some none_type else None.
+Proof. exact unparsable_string. Qed.
 Print Assumptions C14_param_choice.
 Print Assumptions C14_param_warn_pure.
 Print Assumptions C14_param_warn_iff.
@@ -56,3 +66,5 @@ Print Assumptions C14_result_code_preference_keeps_hints.
 Print Assumptions C14_result_warn_always_refuted.
 Print Assumptions C14_front_warn_pure.
 Print Assumptions C14_run_warn_pure.
+Print Assumptions C14_doc_type_union_chain.
+Print Assumptions C14_doc_type_unparsable_string.
